@@ -193,13 +193,14 @@ struct Env {
 };
 
 // ---- scripted generator ----------------------------------------------------------------------------
-static const float RNG_MENU[] = {0.0f, 0.5f, 0.99999994f /*1-2^-24*/, 0.25f, 0.75f, 0.99999988f /*1-2^-23*/, 5.9604645e-8f /*2^-24*/, 0.33333334f};
+static const float RNG_MENU[] = {0.0f, 0.5f, 0.25f, 0.75f, 0.99999994f /*1-2^-24*/, 0.99999988f /*1-2^-23*/, 5.9604645e-8f /*2^-24*/, 0.33333334f};
+static const int RNG_EXACT = 4;  // the first RNG_EXACT answers make every product with the engine's utility alphabet exact
 static const int RNG_MENU_SIZE = 8;
 struct ScriptRng {
 	Env* env = nullptr;
 	float next() noexcept {
 		int k = env->rngCalls++;
-		int alt = (env->classes & CLS_RNG) ? env->choose(-1, E_RNG, 0, RNG_MENU_SIZE, 3, false, 0) : 0;
+		int alt = (env->classes & CLS_RNG) ? env->choose(-1, E_RNG, 0, RNG_MENU_SIZE, RNG_EXACT, true, 0) : 0;
 		env->rec(-1, E_RNG, 0, -1, nullptr, alt, k);
 		return RNG_MENU[alt];
 	}
